@@ -2,7 +2,7 @@
 from checks import symgen, refqr
 
 ID = 'C04'
-PROP_MODULES = ['QRV.Props.C04', 'QRV.Props.C04Ext']
+PROP_MODULES = ['QRV.Props.C04', 'QRV.Props.C04Ext', 'QRV.Props.C04Ext2']
 RULE = ('payloads over the alphabet {digit, alnum-only, lower-case byte, 2-byte non-kanji UTF-8, 3-byte kanji, 3-byte non-kanji, 4-byte UTF-8, truncated lead byte, stray continuation '
         'byte, NUL, 0xFF}: exhaustively up to length 4 (quick) / 5 (thorough) and random up to length 60, plus long digit / alphanumeric / kanji runs up to the symbol capacity; x all '
         'levels x kanji on/off x three packages (rMQR: three priorities). Oracle: concatenation of segment data = payload, no empty segment, bytes valid for the mode (reference '
@@ -15,14 +15,13 @@ TRUSTED = [
 ]
 ASSUMPTIONS = []
 PARTIAL = ('the DP theorems carry the hypothesis payload length < 2^56 bytes (beyond about 1.9e17 bytes the capped costs saturate at the "infinite" constant and the statements are provably false of '
-           'the model - a payload no machine holds); QR New is proved end to end (C04Ext: the returned description is Spec.Valid, kanji only if enabled, encodes and decodes back to the payload, never panics); for the Micro QR / rMQR copies of New the DP theorems apply (same model, other parameters) and validity / round trip of the result are exercised')
+           'the model - a payload no machine holds); QR New is proved end to end (C04Ext: the returned description is Spec.Valid, kanji only if enabled, encodes and decodes back to the payload, never panics); C04Ext2 proves the same for the Micro QR and rMQR copies of New (micro_new_valid / _roundtrip / _no_panic, rmqr_new_valid / _roundtrip / _no_panic); that New leaves the caller\'s slice alone is a property of Go aliasing the functional model cannot express: exercised (C09 histories)')
 MANIFEST = {
     'technique': 'Lean 4 invariants of the two mode-selection dynamic programmes (concatenation, non-empty, class validity incl. kanji, termination / no panic of the unbounded back-tracking loop), composed for QR New with calcVersion minimality and the round-trip theorem (New result is valid, encodes, decodes to the payload); exhaustive small-alphabet and random differential runs',
     'text': ('QRV/Props/C04.lean proves for the model of the mode-selection DPs (one model for the three textual copies, parameterised by header costs and mode numbers): the segments concatenate to the '
              'payload byte for byte, none is empty, every byte of a numeric / alphanumeric segment passes that mode\'s class test and only supported modes occur (payloads below 2^56 bytes), for the kanji '
              'variant that the back-tracking loop - unbounded in the Go code - terminates and never indexes out of range, and that QR New returns the requested level. QRV/Props/C04Ext.lean proves for QR New, kanji on or off: whatever it returns is a VALID description (Spec.Valid.QR: modes, per-mode bytes incl. whole kanji-representable UTF-8 characters, counts below the count-field limit - from the kernel-evaluated fact that a fitting segment never exceeds it -, total bits within capacity), '
-             'has no kanji segment when kanji is off, concatenates to the payload, encodes without error and decodes back to the payload (via roundtrip_QR), and New never panics (payloads below 2^56 bytes; the unbounded statements are refuted formally). For the Micro QR and rMQR copies kanji-only-if-enabled, validity of '
-             'kanji segments and encode/decode of the result are exercised exhaustively over all strings up to length 3-4 over 14 byte classes and on random payloads, in all three packages.'),
+             'has no kanji segment when kanji is off, concatenates to the payload, encodes without error and decodes back to the payload (via roundtrip_QR), and New never panics (payloads below 2^56 bytes; the unbounded statements are refuted formally). QRV/Props/C04Ext2.lean proves the same for the Micro QR and rMQR copies (the DP invariants generalised to any distinct mode list and header costs; Micro QR: fitting implies a representable count, every level has a legal version for the empty payload; rMQR: unknown priority is an error). In addition all three packages are exercised exhaustively over all strings up to length 3-4 over 14 byte classes and on random payloads, in all three packages.'),
     'note': 'Trusted: Lean kernel; Model/New.lean tied by correspondence (56k payloads, 0 disagreements); reference predicates.',
 }
 
